@@ -478,3 +478,95 @@ def _spec_nnsp(which):
 X.Interp.spec_nnsp_matrix = _spec_nnsp("M")
 X.Interp.spec_nnsp_v1 = _spec_nnsp("v1")
 X.Interp.spec_nnsp_v2 = _spec_nnsp("v2")
+
+
+# ---------------------------------------------------------------------------------------------------------------------
+# DataFrames built from validated batches (HistogramDensityMethod, C07 skeleton): opaque values with a row count; the
+# frame built from a block is a deterministic function of the block's cells
+def df_of_block(it, v):
+    cells, n, d = _blk(it, v)
+    f = it.ctx.uf("df_of_block", z3.ArraySort(INT, INT, REAL), INT, INT, it.ctx.sort("DF"))
+    r = SOpaque("DF", f(cells, n, d))
+    it.ctx.fact(df_len(it, r) == n, key=("df-of-block-len", r.t.sexpr()))
+    w = it.ctx.uf("df_width", it.ctx.sort("DF"), INT)
+    it.ctx.fact(w(r.t) == d, key=("df-of-block-width", r.t.sexpr()))
+    return r
+
+
+_prev_pd_dataframe = A.EXTRA_EXT.get("pandas.DataFrame")
+
+
+def _pd_dataframe_nd(models, it, args, kw, fr, node):
+    if args and isinstance(args[0], A.SNd):
+        models.note(it, "model:pd.DataFrame(validated array, columns=...) is an opaque frame determined by the array's cells")
+        return df_of_block(it, args[0])
+    if _prev_pd_dataframe is None:
+        raise Unsupported("pd.DataFrame(%r)" % (args,), node)
+    return _prev_pd_dataframe(models, it, args, kw, fr, node)
+
+
+A.EXTRA_EXT["pandas.DataFrame"] = _pd_dataframe_nd
+OPAQUE_ATTRS[("DF", "shape")] = lambda models, it, base, node: (df_len(it, base), it.ctx.uf("df_width", it.ctx.sort("DF"), INT)(base.t))
+OPAQUE_ATTRS[("DF", "iloc")] = lambda models, it, base, node: SOpaque("DFILoc", base.t)
+OPAQUE_ATTRS[("DF", "values")] = lambda models, it, base, node: SOpaque("NdO", it.ctx.uf("df_to_numpy", it.ctx.sort("DF"), it.ctx.sort("NdO"))(base.t))
+
+
+def _iloc_getitem(models, it, base, idx, node):
+    if isinstance(base, SOpaque) and base.sort == "DFILoc":
+        if isinstance(idx, tuple) and len(idx) == 2 and tag(idx[0]) == "slice" and idx[0][1] is None and idx[0][2] is None and is_num(idx[1]):
+            f = it.ctx.uf("df_column", it.ctx.sort("DF"), INT, it.ctx.sort("Ser"))
+            return SOpaque("Ser", f(base.t, b2i(z(idx[1]))))
+        raise Unsupported("iloc[%r]" % (idx,), node)
+    if isinstance(base, SOpaque) and base.sort in ("Hists",):
+        f = it.ctx.uf("hist_of", it.ctx.sort("Hists"), INT, it.ctx.sort("Hist"))
+        return SOpaque("Hist", f(base.t, b2i(z(idx))))
+    return NotImplemented
+
+
+HOOKS["getitem"].insert(0, _iloc_getitem)
+
+
+def _np_concatenate(models, it, args, kw, fr, node):
+    parts = args[0] if args else ()
+    if isinstance(parts, tuple) and parts and all(isinstance(p, SOpaque) and p.sort == "Ser" for p in parts):
+        models.note(it, "opaque:np.concatenate of two columns (only its min / max are used, as arbitrary reals)")
+        return SOpaque("Ser", it.run.fresh(it.ctx.sort("Ser"), "concat"))
+    raise Unsupported("np.concatenate(%r)" % (args,), node)
+
+
+A.EXTRA_EXT["numpy.concatenate"] = _np_concatenate
+
+
+def _ser_method(models, it, target, obj, name, args, kwargs, fr, node):
+    if isinstance(target, SOpaque) and target.sort == "Ser" and name in ("min", "max"):
+        return it.ctx.uf("ser_" + name, it.ctx.sort("Ser"), REAL)(target.t)
+    return NotImplemented
+
+
+HOOKS["method"].insert(0, _ser_method)
+
+
+def _make_symbolic3(models, it, reg, ty, name, fresh):
+    if ty in ("Hists", "Hist", "Ser"):
+        srt = it.ctx.sort(ty)
+        return SOpaque(ty, z3.Const(name, srt) if not fresh else it.run.fresh(srt, name))
+    return NotImplemented
+
+
+HOOKS["make_symbolic"].append(_make_symbolic3)
+
+
+def _spec_df_of(self, e, fr):
+    return df_of_block(self, self.ev(e.args[0], fr))
+
+
+def _spec_df_concat(self, e, fr):
+    a, b = self.ev(e.args[0], fr), self.ev(e.args[1], fr)
+    f = self.ctx.uf("df_concat", self.ctx.sort("DF"), self.ctx.sort("DF"), self.ctx.sort("DF"))
+    r = SOpaque("DF", f(a.t, b.t))
+    self.ctx.fact(df_len(self, r) == df_len(self, a) + df_len(self, b), key=("concat-len", r.t.sexpr()))
+    return r
+
+
+X.Interp.spec_df_of = _spec_df_of
+X.Interp.spec_df_concat = _spec_df_concat
